@@ -39,7 +39,9 @@ TRUSTED_BASE = [
     "character (sampling)",
     "tools/translate/gen_c11.py regenerates the CONTROL class, the XML element templates (which arguments go through "
     "enc) and bbox2str from pdfminer/converter.py, pdfminer/utils.py on every run",
-    "number formatting (%.3f, %d, str(colour)) is opaque: formatted by the harness with Python and compared textually",
+    "number formatting: '%.3f' / '%d' / utils.bbox2str (regenerated) are modelled in Lean on exact values and tied to "
+    "Python on the numbers of every generated tree and on rounding-tie probes; the model consumes the formatted strings; "
+    "str(colour) and the pts join stay opaque (alphabet checked per tree)",
     "Python codecs (utf-8, utf-16, latin-1, cp1252) are abstract: an incremental encoder with a left-inverse decoder",
     "xml.etree.ElementTree (expat) as the independent XML well-formedness oracle; the shared PDF writer",
     "html.escape as shipped with CPython (its five replacements are modelled by hand and correspondence-checked)",
@@ -62,6 +64,12 @@ STATEMENT_STATUS: Dict[str, str] = {
     "esc_unesc_attr": "proved: attribute position incl. strip_control, TAB/LF/CR as references; no raw \" or <",
     "esc_unesc_text": "proved: character data position incl. strip_control, CR as reference; no raw <",
     "strip_legal": "proved: after CONTROL stripping (regenerated class) XML chars + C0 controls are XML chars",
+    "C11_fmt_f3_plain": "proved: '%.3f' model output is digits/-/. for every signed rational (formatter tied to Python "
+                        "by driver ops fmt.* incl. rounding ties)",
+    "C11_fmt_d_plain": "proved: '%d' model output is digits/- for every signed rational",
+    "C11_bbox2str_plain": "proved over the REGENERATED utils.bbox2str",
+    "C11_numeric_items_ok": "proved: items whose numeric fields come from the formatters meet the Plain hypotheses of "
+                            "C11_xml_wf for all numbers (remaining opaque: str(colour), pts join, page id)",
     "C11_xml_lex": "proved: the reader's lexer inverts the rendering of every well-formed token sequence",
     "C11_xml_wf": "proved (full statement): parseXML (characters XMLConverter writes) = some (docSkeleton tree) for all "
                   "trees in the domain PageOk (strings XML Char after optional CONTROL stripping, formatted numbers "
@@ -309,8 +317,52 @@ def mk_laparams(d: Optional[Dict[str, Any]]):
 
 # ------------------------------------------------------------------ implementation adapters
 
+NUMLOG: List[Tuple[str, Any]] = []      # raw numbers behind the formatted fields of the last dumps
+
+
 def fmt_bbox(b) -> str:
+    if len(NUMLOG) < 4000:
+        NUMLOG.append(("bbox", tuple(b)))
     return ",".join("%.3f" % v for v in b)
+
+
+def fmt_f3(v) -> str:
+    if len(NUMLOG) < 4000:
+        NUMLOG.append(("f3", v))
+    return "%.3f" % v
+
+
+def fmt_d(v) -> str:
+    if len(NUMLOG) < 4000:
+        NUMLOG.append(("d", v))
+    return "%d" % v
+
+
+def srat(v) -> Optional[str]:
+    """sign + exact magnitude of a finite int/float for the Lean formatter model"""
+    import math
+    from fractions import Fraction
+    if isinstance(v, bool) or not isinstance(v, (int, float)):
+        return None
+    if isinstance(v, float) and not math.isfinite(v):
+        return None
+    neg = v < 0 if isinstance(v, int) else math.copysign(1.0, v) < 0
+    return ("- " if neg else "+ ") + C.frac_str(Fraction(abs(v)))
+
+
+def fmt_request(kind: str, v) -> Optional[Tuple[str, str, str, Any]]:
+    """A driver request that ties the Lean formatter model to Python's % operator / pdfminer's bbox2str."""
+    if kind == "bbox":
+        from pdfminer.utils import bbox2str
+        parts = [srat(x) for x in v]
+        if None in parts or len(parts) != 4:
+            return None
+        return ("fmt.bbox " + " ".join(parts), "tie", bbox2str(v), {"op": "fmt.bbox", "value": [repr(x) for x in v]})
+    r = srat(v)
+    if r is None:
+        return None
+    exp = ("%.3f" % v) if kind == "f3" else ("%d" % v)
+    return (f"fmt.{kind} {r}", "tie", exp, {"op": "fmt." + kind, "value": repr(v)})
 
 
 def dump_item(it) -> List[Any]:
@@ -320,34 +372,34 @@ def dump_item(it) -> List[Any]:
         groups = None
         if it.groups is not None:
             groups = [dump_group(g) for g in it.groups]
-        return ["page", str(it.pageid), fmt_bbox(it.bbox), "%d" % it.rotate, [dump_item(c) for c in it], groups]
+        return ["page", str(it.pageid), fmt_bbox(it.bbox), fmt_d(it.rotate), [dump_item(c) for c in it], groups]
     if isinstance(it, L.LTLine):
-        return ["line", "%d" % it.linewidth, fmt_bbox(it.bbox)]
+        return ["line", fmt_d(it.linewidth), fmt_bbox(it.bbox)]
     if isinstance(it, L.LTRect):
-        return ["rect", "%d" % it.linewidth, fmt_bbox(it.bbox)]
+        return ["rect", fmt_d(it.linewidth), fmt_bbox(it.bbox)]
     if isinstance(it, L.LTCurve):
-        return ["curve", "%d" % it.linewidth, fmt_bbox(it.bbox), ",".join("%.3f,%.3f" % p for p in it.pts)]
+        return ["curve", fmt_d(it.linewidth), fmt_bbox(it.bbox), ",".join("%.3f,%.3f" % p for p in it.pts)]
     if isinstance(it, L.LTFigure):
         return ["figure", it.name, fmt_bbox(it.bbox), [dump_item(c) for c in it]]
     if isinstance(it, L.LTTextLine):
         return ["textline", fmt_bbox(it.bbox), [dump_item(c) for c in it]]
     if isinstance(it, L.LTTextBox):
-        return ["textbox", "%d" % it.index, fmt_bbox(it.bbox), isinstance(it, L.LTTextBoxVertical),
+        return ["textbox", fmt_d(it.index), fmt_bbox(it.bbox), isinstance(it, L.LTTextBoxVertical),
                 [dump_item(c) for c in it]]
     if isinstance(it, L.LTChar):
-        return ["char", it.fontname, fmt_bbox(it.bbox), it.ncs.name, str(it.graphicstate.ncolor), "%.3f" % it.size,
+        return ["char", it.fontname, fmt_bbox(it.bbox), it.ncs.name, str(it.graphicstate.ncolor), fmt_f3(it.size),
                 it.get_text()]
     if isinstance(it, L.LTAnno):
         return ["anno", it.get_text()]
     if isinstance(it, L.LTImage):
-        return ["image", "%d" % it.width, "%d" % it.height]
+        return ["image", fmt_d(it.width), fmt_d(it.height)]
     raise C.Infra("unexpected layout item " + repr(it))
 
 
 def dump_group(g) -> List[Any]:
     from pdfminer import layout as L
     if isinstance(g, L.LTTextBox):
-        return ["gbox", "%d" % g.index, fmt_bbox(g.bbox)]
+        return ["gbox", fmt_d(g.index), fmt_bbox(g.bbox)]
     if isinstance(g, L.LTTextGroup):
         return ["ggroup", fmt_bbox(g.bbox), [dump_group(c) for c in g]]
     raise C.Infra("unexpected group item " + repr(g))
@@ -761,11 +813,19 @@ def eval_case(spec, la, strip: bool, codecs: List[str], want_model: bool = True,
                                       expected, got, tags))
 
     try:
+        del NUMLOG[:]
         ref = impl_tree(pdf, la)
     except Exception as e:  # noqa: BLE001
         fail("building the layout tree raised " + type(e).__name__, "a tree", repr(e), stage="tree")
         return res
     res.tree = ref
+    if want_model and only is None:
+        # the numbers behind the reference tree: a sample goes to the Lean formatter model
+        step = max(1, len(NUMLOG) // 12)
+        for kind, v in NUMLOG[::step][:14]:
+            q = fmt_request(kind, v)
+            if q is not None:
+                res.req.append(q)
     res.nglyph = len(tree_strings(ref))
     res.legal = all(is_xml_char(ch) for s in tree_strings(ref) for ch in s)
     def canon(page, proj):
@@ -1123,7 +1183,9 @@ def flush_model(ctx: C.Ctx, results: List[CaseResult]) -> None:
         ctx.branch(kind + ":" + inp["op"])
         if got == exp:
             continue
-        if kind == "tie":
+        if kind == "tie" and inp["op"].startswith("fmt."):
+            ctx.disagree(inp["op"], inp, exp, got)
+        elif kind == "tie":
             ctx.disagree(inp["op"], inp, first_diff(exp, got), "model differs")
         elif kind == "thm":
             ctx.disagree(inp["op"], inp, "theorem instance (Lean reader on the model output = skeleton)", got)
@@ -1167,8 +1229,41 @@ def replay(ctx: C.Ctx, doc, from_corpus: bool = False) -> None:
     flush_model(ctx, coll)
 
 
+def fmt_probes(ctx: C.Ctx) -> None:
+    """Formatter model vs Python on rounding ties (k/16 with odd k: x*1000 ends in .5), signed zeros, tiny, huge
+    and random values."""
+    if ctx.driver is None:
+        return
+    rng = ctx.rng
+    vals: List[Any] = [0.0, -0.0, 0.0625, 0.1875, 0.3125, 2.0625, -0.0625, 1e-4, -1e-4, 4.9999e-4, 5.0001e-4, 0.9995,
+                       0.99949, 1e15 + 0.5, 123456.7895, 1e-300, 7, -7, 0, 2.5, -2.5, 0.5, -0.5, 1e22, 999.9995]
+    for _ in range(ctx.n(150, 5000)):
+        m = rng.random()
+        if m < 0.3:
+            vals.append(rng.randint(-800, 800) + rng.choice([1, 3, 5, 7, 9, 11, 13, 15]) / 16.0)
+        elif m < 0.6:
+            vals.append(round(rng.uniform(-1000, 1000), rng.randint(0, 6)))
+        elif m < 0.8:
+            vals.append(rng.uniform(-1, 1) * 10 ** rng.randint(-8, 12))
+        else:
+            vals.append(rng.randint(-10 ** 6, 10 ** 6))
+    reqs = []
+    for v in vals:
+        reqs.append(fmt_request("f3", v))
+        reqs.append(fmt_request("d", v))
+    for i in range(0, len(vals) - 3, 4):
+        reqs.append(fmt_request("bbox", tuple(vals[i:i + 4])))
+    reqs = [q for q in reqs if q is not None]
+    outs = ctx.driver.ask([q[0] for q in reqs])
+    for (line, kind, exp, inp), got in zip(reqs, outs):
+        ctx.branch("tie:" + inp["op"])
+        if got != exp:
+            ctx.disagree(inp["op"], inp, exp, got)
+
+
 def run(ctx: C.Ctx) -> None:
     run_corpus(ctx)
+    fmt_probes(ctx)
     rng = ctx.rng
     n = ctx.n(300, 8000)
     coll: List[CaseResult] = []
